@@ -172,3 +172,79 @@ func vhAdmissionTop() {
 	vSameBytes(ext.Value, vTLV(0x30, body), "admission extension value differs from Common PKI AdmissionSyntax")
 	vAssert(len(ext.Id) == 6 && ext.Id[0] == 1 && ext.Id[1] == 3 && ext.Id[2] == 36 && ext.Id[3] == 8 && ext.Id[4] == 3 && ext.Id[5] == 3, "admission OID is not 1.3.36.8.3.3")
 }
+
+// vLong: a string of n bytes whose first and last byte are symbolic ASCII
+// and whose middle is a fixed letter.
+func vLong(name string, n int) string {
+	if n <= 2 {
+		return vAsciiString(name, n)
+	}
+	mid := make([]byte, n-2)
+	for i := range mid {
+		mid[i] = 'a'
+	}
+	return vAsciiString(name+".first", 1) + string(mid) + vAsciiString(name+".last", 1)
+}
+
+// vhAdmissionLengths: C16 at the DER length boundaries. One member of an
+// admission - the admission authority (dns / mail / uri), the naming
+// authority's URL or text, a profession item, the registration number, the
+// additional profession info - has 125..129, 253..257 or 300 bytes (short
+// form, 0x81 and 0x82 long form of its own and of the enclosing lengths), at
+// the top level and inside the admission; the value is compared with the
+// reference encoding.
+func vhAdmissionLengths() {
+	lens := []int{125, 126, 127, 128, 129, 253, 254, 255, 256, 257, 300}
+	L := lens[vChoose("len", len(lens))]
+	field := vChoose("field", 9)
+	n := func(k int) int {
+		if k == field {
+			return L
+		}
+		return 2
+	}
+	ad := Admission{}
+	var top []byte
+	if field == 8 {
+		s := vLong("top.uri", L)
+		ad.AdmissionAuthority = GeneralNameURI(s)
+		top = vTLV(0x86, []byte(s))
+	}
+	ax := Admissions{}
+	var body []byte
+	switch {
+	case field == 0:
+		s := vLong("auth.dns", L)
+		ax.AdmissionAuthority = GeneralNameDNS(s)
+		body = append(body, vTLV(0xa0, vTLV(0x82, []byte(s)))...)
+	case field == 1:
+		s := vLong("auth.mail", L)
+		ax.AdmissionAuthority = GeneralNameRFC822(s)
+		body = append(body, vTLV(0xa0, vTLV(0x81, []byte(s)))...)
+	case field == 2:
+		s := vLong("auth.uri", L)
+		ax.AdmissionAuthority = GeneralNameURI(s)
+		body = append(body, vTLV(0xa0, vTLV(0x86, []byte(s)))...)
+	}
+	ax.NamingAuthority = NamingAuthority{URL: vLong("na.url", n(3)), Text: vLong("na.text", n(4))}
+	body = append(body, vTLV(0xa1, vTLV(0x30, vCat(vTLV(0x16, []byte(ax.NamingAuthority.URL)), vTLV(0x0c, []byte(ax.NamingAuthority.Text)))))...)
+	pi := ProfessionInfo{ProfessionItems: []string{vLong("item", n(5))}, RegistrationNumber: vPrintableString("reg", 1), AddProfessionInfo: []byte(vLong("add", n(7)))}
+	if field == 6 {
+		mid := make([]byte, L-1)
+		for i := range mid {
+			mid[i] = 'b'
+		}
+		pi.RegistrationNumber += string(mid)
+	}
+	piRef := vTLV(0x30, vCat(vTLV(0x30, vTLV(0x0c, []byte(pi.ProfessionItems[0]))), vTLV(0x13, []byte(pi.RegistrationNumber)), vTLV(0x04, pi.AddProfessionInfo)))
+	ax.ProfessionInfos = []ProfessionInfo{pi}
+	body = append(body, vTLV(0x30, piRef)...)
+	ad.Contents = []Admissions{ax}
+	ext, err := NewAdmission(false, ad)
+	vAssert(err == nil, "NewAdmission failed on long but valid content")
+	if err != nil {
+		return
+	}
+	vReach("encoded")
+	vSameBytes(ext.Value, vTLV(0x30, vCat(top, vTLV(0x30, vTLV(0x30, body)))), "admission extension value differs from Common PKI AdmissionSyntax at a DER length boundary")
+}
